@@ -341,11 +341,9 @@ func c06CRunOnce(c c06CCase, seed int64, st *c06CStats) (msg string) {
 				st.L["race:search-with-an-acknowledged-delete-before-it"]++
 				st.NT = true
 			}
-			overlapsVacuum := false
 			for _, ms := range maintSpans {
 				if ms[0] < a.Q1 && ms[1] > a.Q0 {
 					st.L["race:search-overlaps-a-maintenance-run"]++
-					overlapsVacuum = true
 					break
 				}
 			}
@@ -358,29 +356,14 @@ func c06CRunOnce(c c06CCase, seed int64, st *c06CStats) (msg string) {
 			for i, id := range a.IDs {
 				sp, known := spans[id]
 				if !known {
-					// Known finding "withscores-empty-id": VSearchWithScores ignores the "not found" answer of the
-					// internal->external id translation. A (deleted) candidate whose mapping a vacuum removes between the graph
-					// search and the translation comes back as the empty id. Only that shape is excluded: the empty id, from
-					// VSearchWithScores, while the call overlaps a maintenance run.
-					if id == "" && a.Q.EP == "VSearchWithScores" && overlapsVacuum && verifkit.Known("withscores-empty-id") {
-						st.Excluded["withscores-empty-id"]++
-						continue
-					}
 					return fmt.Sprintf("%s: result #%d %q is not an id that was ever added", desc, i, id)
 				}
 				if seen[id] {
-					// Known finding "duplicate-id-readd-during-search": when an id is deleted and re-added while a search
-					// runs, the old node (collected before its delete) and the new node both translate to the same external
-					// id. Only that shape is excluded: two incarnations of the id were live inside the call's bracket.
 					inc := 0
 					for _, x := range sp {
 						if x.from < a.Q1 && x.to > a.Q0 {
 							inc++
 						}
-					}
-					if inc >= 2 && verifkit.Known("duplicate-id-readd-during-search") {
-						st.Excluded["duplicate-id-readd-during-search"]++
-						continue
 					}
 					return fmt.Sprintf("%s: id %q is returned twice (incarnations of the id live during the call: %d)", desc, id, inc)
 				}
